@@ -540,7 +540,9 @@ func (r *RTPReceiver) readRTP(b []byte, reader *TrackRemote) (n int, a intercept
 		return 0, nil, io.EOF
 	}
 
-	if t := r.streamsForTrack(reader); t != nil {
+	// a track whose streams were never bound (e.g. a second track announced in the
+	// same remote m-section) has no interceptor to read from
+	if t := r.streamsForTrack(reader); t != nil && t.rtpInterceptor != nil {
 		return t.rtpInterceptor.Read(b, a)
 	}
 
